@@ -1,6 +1,7 @@
 package main
 
 import (
+	"go/token"
 	"fmt"
 	"go/types"
 	"strings"
@@ -42,6 +43,11 @@ func (a *sendAnchors) acquired(alt *Alt) (bool, string) {
 	}
 	if alt.Has("b", true, func(t *Term) bool { return isCall(t, a.limAllow) && len(t.Args) > 0 && a.isConfigLimiter(t.Args[0]) }) {
 		return true, "Allow()=true on config.SendLimiter"
+	}
+	if alt.Has("b", true, func(t *Term) bool {
+		return isCall(t, a.limAllowN) && len(t.Args) == 3 && a.isConfigLimiter(t.Args[0]) && t.Args[2].IsConst("1")
+	}) {
+		return true, "AllowN(t, 1)=true on config.SendLimiter"
 	}
 	return false, ""
 }
@@ -282,6 +288,45 @@ func c20r3(w *World, rr *RuleRun) {
 	if n == 0 {
 		rr.Oblige(shortFuncName(sendFn), "query send path exists", "-", false, "no caller of the send routine other than reply/sendError found")
 	}
+	// "first write" means something only if the counter the policy reads moves with the writes: the
+	// function that performs a send also advances that very cell (not a private copy published later)
+	for _, e := range w.CG.CallersOf(sendFn) {
+		if within(e.Caller, reply) || within(e.Caller, sendError) || !w.P.IsLib(e.Caller) {
+			continue
+		}
+		f := e.Caller
+		var cells []*Term
+		scope := append([]*ssa.Function{f}, allAnon(f)...)
+		eachInstr(scope, func(_ *ssa.Function, ins ssa.Instruction) {
+			if bo, ok := ins.(*ssa.BinOp); ok && bo.Op == token.EQL {
+				if c, isC := ConstInt(bo.Y); isC && c == 0 {
+					if ld, isLd := bo.X.(*ssa.UnOp); isLd && ld.Op == token.MUL {
+						cells = append(cells, w.TS.Of(ld.X))
+					}
+				}
+			}
+		})
+		if len(cells) == 0 {
+			continue // the policy does not look at a write counter here
+		}
+		advanced := false
+		eachInstr(scope, func(_ *ssa.Function, ins ssa.Instruction) {
+			st, ok := ins.(*ssa.Store)
+			if !ok {
+				return
+			}
+			at := w.TS.Of(st.Addr)
+			for _, cell := range cells {
+				if termEq(at, cell) {
+					v := w.TS.Of(st.Val)
+					if v.Op == OpBin && v.Name == "+" && v.Args[1].IsConst("1") {
+						advanced = true
+					}
+				}
+			}
+		})
+		rr.At(w, e.Site, "the write counter the send policy reads is advanced by the send itself", advanced, "counter "+trunc(cells[0].String(), 80))
+	}
 	// no library code sets the opt-out fields
 	for _, fv := range []*types.Var{notAny, notFirst} {
 		ws := w.FieldWrites(w.P.LibFuncs, fv)
@@ -340,6 +385,31 @@ func c20r4(w *World, rr *RuleRun) {
 	}
 	// give-back only under rated write error
 	for _, c := range w.AllCallsTo(w.P.LibFuncs, a.limAllowN) {
+		cc := callInstrCommon(c)
+		if len(cc.Args) == 3 {
+			if n, ok := ConstInt(cc.Args[2]); ok && n > 0 {
+				continue // an acquisition, judged by C20.1
+			}
+		}
+		// the token is handed back at the time of the hand-back: the time argument is a clock reading
+		// taken after the failed write, not one taken before the acquisition (which would rewind the
+		// limiter and credit the waited interval twice)
+		if len(cc.Args) == 3 {
+			okNow := false
+			if tc, isCall := cc.Args[1].(*ssa.Call); isCall {
+				if o := calleeObj(tc.Common()); o != nil && o.Pkg() != nil && o.Pkg().Path() == "time" && o.Name() == "Now" {
+					okNow = PrecededBy(tc, func(i ssa.Instruction) bool {
+						for _, ws := range a.sites {
+							if i == ws {
+								return true
+							}
+						}
+						return false
+					})
+				}
+			}
+			rr.At(w, c, "the give-back is booked at a clock reading taken after the failed write", okNow, "time argument "+trunc(w.TS.Of(cc.Args[1]).String(), 80))
+		}
 		w.Require(rr, c, "AllowN give-back only after a write error on a rated path", func(alt *Alt) (bool, string) {
 			rated := flag < 0
 			if flag >= 0 && c.Parent() == sendFn && alt.HasKey("b", w.TS.Of(sendFn.Params[flag]), true) {
